@@ -466,6 +466,8 @@ func runScenarios(scs []Scenario, each func(i int, sc Scenario, out *Outcome, cr
 	return nil
 }
 
+const firstRunFailed = "first-run-failed:"
+
 // judge applies the oracle.
 func judge(sc Scenario, out *Outcome, crashed bool, log string) (violation, sig string) {
 	if crashed {
@@ -485,6 +487,11 @@ func judge(sc Scenario, out *Outcome, crashed bool, log string) (violation, sig 
 			return "failure-free run failed: " + out.RunErr + out.ScanErr, "trace-failed:" + sc.Program
 		}
 		return "", ""
+	}
+	if len(sc.Plan) == 1 && out.Fired > 0 && out.RunErr != "" && !strings.Contains(out.RunErr, "consecutive attempts") {
+		// a single loss, after which losses have stopped and replacement machines can be started: the
+		// run has to complete by recomputing what was lost (confirmed by repetition, see report)
+		return "a single machine was lost, replacement machines could be started, yet Session.Run failed instead of recomputing the lost task outputs: " + tail(out.RunErr, 1200), firstRunFailed + sc.Program
 	}
 	if out.RescanFailed {
 		return fmt.Sprintf("the first run reported success; after the losses stopped, three scans of its Result all failed (lost task outputs must be recomputed): %s", tail(out.RescanErr, 1500)), "no-rescan:" + sc.Program
@@ -520,6 +527,26 @@ func report(t *testing.T, rec *vt.Rec, test string, seen map[string]bool) func(i
 		}
 		if out.Fired == 0 && len(sc.Plan) > 0 {
 			classes = append(classes, "trigger-not-reached")
+		}
+		if strings.HasPrefix(sig, firstRunFailed) {
+			// reported only if it is what this plan does, not what one unlucky schedule did: the same
+			// scenario twice more, in fresh processes; every run in which the kill fires must fail alike
+			repeated, fired := 0, 0
+			_ = runScenarios([]Scenario{sc, sc}, func(_ int, _ Scenario, o *Outcome, crashed bool, _ string) {
+				if crashed || o.Fired == 0 {
+					return
+				}
+				fired++
+				if o.RunErr != "" && !strings.Contains(o.RunErr, "consecutive attempts") {
+					repeated++
+				}
+			})
+			if fired == 0 || repeated < fired {
+				classes = append(classes, "first-run-error-not-repeated")
+				v, sig = "", ""
+			} else {
+				classes = append(classes, "first-run-error-repeated")
+			}
 		}
 		rec.Case(nt, vt.Hash(sc.String()), classes...)
 		if nt && rec.WantSample(sc.Program) {
